@@ -1,7 +1,7 @@
 """Helpers shared by the rule modules."""
-from cpv.expr import render, render_stmt, top_stmts, atom, const_value, is_null
+from cpv.expr import render, rx, render_stmt, top_stmts, atom, const_value, is_null
 from cpv.model import CALL_KINDS, CAST_KINDS
-from cpv.paths import enumerate_paths, Counter, MANY, loop_blocks
+from cpv.paths import enumerate_paths, Counter, MANY, loop_blocks, trace_nodes
 from cpv.build import AnalysisBroken
 
 ALLCALLS = CALL_KINDS + ("CXXConstructExpr", "CXXTemporaryObjectExpr")
@@ -9,7 +9,7 @@ ALLCALLS = CALL_KINDS + ("CXXConstructExpr", "CXXTemporaryObjectExpr")
 
 def path_calls(prog, f, p):
     """call nodes executed along path p, in order"""
-    return [f.nodes[e] for e in p.trace if isinstance(e, int) and f.nodes[e]["k"] in ALLCALLS]
+    return [n for n in trace_nodes(f, p) if n["k"] in ALLCALLS]
 
 
 def call_name(prog, f, c):
@@ -26,11 +26,7 @@ def count_on_paths(prog, f, paths, pred):
     """for each path: number of trace elements (nodes) satisfying pred(node)"""
     out = []
     for p in paths:
-        n = 0
-        for e in p.trace:
-            if isinstance(e, int) and pred(f.nodes[e]):
-                n += 1
-        out.append(n)
+        out.append(len([1 for x in trace_nodes(f, p) if pred(x)]))
     return out
 
 
@@ -40,7 +36,7 @@ def assignments(f, p=None):
     if p is None:
         it = list(f.walk())
     else:
-        it = [f.nodes[e] for e in p.trace if isinstance(e, int)]
+        it = trace_nodes(f, p)
     for n in it:
         if n["k"] == "BinaryOperator" and n.get("op") == "=":
             out.append((render(f, f.node(n["lhs"])), f.node(n["rhs"]), n))
@@ -178,4 +174,66 @@ def facts_at(f, pos):
         return out
     for cn, pol, b in f.edge_conditions(pos):
         add(cn, pol)
+    return out
+
+
+def delta_of(f, n, var=None):
+    """(variable rendering, delta) when node n is an increment/decrement of an integer lvalue by a constant:
+    x++, ++x, x--, --x, x += c, x -= c, x = x + c, x = c + x, x = x - c. Otherwise None."""
+    k = n["k"]
+    if k == "UnaryOperator" and n.get("op") in ("++", "--"):
+        v = render(f, n["c"][0])
+        d = 1 if n["op"] == "++" else -1
+    elif k == "CompoundAssignOperator" and n.get("op") in ("+=", "-="):
+        c = const_value(f, f.node(n["rhs"]))
+        if c is None:
+            return None
+        v = render(f, f.node(n["lhs"]))
+        d = c if n["op"] == "+=" else -c
+    elif k == "BinaryOperator" and n.get("op") == "=":
+        v = render(f, f.node(n["lhs"]))
+        r = f.strip(f.node(n["rhs"]), casts=True)
+        if r is None or r["k"] != "BinaryOperator" or r.get("op") not in ("+", "-"):
+            return None
+        a, b = render(f, f.node(r["lhs"]), keep_explicit_casts=False), render(f, f.node(r["rhs"]), keep_explicit_casts=False)
+        ca, cb = const_value(f, f.node(r["lhs"])), const_value(f, f.node(r["rhs"]))
+        if a == v and cb is not None:
+            d = cb if r["op"] == "+" else -cb
+        elif b == v and ca is not None and r["op"] == "+":
+            d = ca
+        else:
+            return None
+    else:
+        return None
+    if var is not None and v != var and not v.endswith(var):
+        return None
+    return (v, d)
+
+
+def deltas_on_path(f, p, var):
+    """list of constant increments applied to `var` along path p (see delta_of)"""
+    out = []
+    for n in trace_nodes(f, p):
+        d = delta_of(f, n, var)
+        if d is not None:
+            out.append(d[1])
+    return out
+
+
+def origin_val(f, p):
+    """valuation of path p with atom keys re-rendered in origin form (single-assignment locals substituted)"""
+    out = {}
+    for k, v, b, cn in p.decisions:
+        n = f.nodes.get(cn) if isinstance(cn, int) else None
+        if n is None or k.startswith(("decided:", "throws@", "switch:")) or "::" in k.split("(")[0]:
+            out[k] = v
+            continue
+        ak, apol = atom(f, n)
+        if ak != k:
+            out[k] = v
+            continue
+        # recompute the key with substitution
+        from cpv.expr import atom_sub
+        sk, spol = atom_sub(f, n)
+        out[sk] = v if spol == apol else (not v)
     return out
